@@ -1041,14 +1041,19 @@ theorem length_relax (bonds : List WBond) : ∀ lab : List Nat, (relax bonds lab
     rw [List.foldl_cons, ih]
     simp [List.length_set]
 
-theorem length_relaxN (bonds : List WBond) : ∀ (k : Nat) (lab : List Nat), (relaxN bonds k lab).length = lab.length := by
+theorem length_relaxFix (bonds : List WBond) : ∀ (k : Nat) (lab : List Nat), (relaxFix bonds k lab).length = lab.length := by
   intro k
   induction k with
   | zero => intro lab; rfl
-  | succ k ih => intro lab; rw [relaxN, ih, length_relax]
+  | succ k ih =>
+    intro lab
+    simp only [relaxFix]
+    split
+    · rfl
+    · rw [ih, length_relax]
 
 theorem length_compLabels (m : WMol) : (compLabels m).length = m.natoms := by
-  simp [compLabels, length_relaxN]
+  simp [compLabels, length_relaxFix]
 
 theorem mem_dedup : ∀ (l : List Nat) (a : Nat), a ∈ dedup l ↔ a ∈ l := by
   intro l
@@ -1205,17 +1210,19 @@ theorem foldl_relaxStep_conn {p : WMol} : ∀ (bs : List WBond) (lab : List Nat)
     rw [List.foldl_cons]
     exact ih _ (fun x hx => hsub x (List.mem_cons_of_mem _ hx)) (relaxStep_conn h (hsub e (List.mem_cons_self)))
 
-theorem relaxN_conn {p : WMol} : ∀ (k : Nat) (lab : List Nat), LabelsConn p lab → LabelsConn p (relaxN p.bonds k lab) := by
+theorem relaxFix_conn {p : WMol} : ∀ (k : Nat) (lab : List Nat), LabelsConn p lab → LabelsConn p (relaxFix p.bonds k lab) := by
   intro k
   induction k with
   | zero => intro lab h; exact h
   | succ k ih =>
     intro lab h
-    rw [relaxN]
-    exact ih _ (by rw [relax_eq_foldl]; exact foldl_relaxStep_conn _ _ (fun _ he => he) h)
+    simp only [relaxFix]
+    split
+    · exact h
+    · exact ih _ (by rw [relax_eq_foldl]; exact foldl_relaxStep_conn _ _ (fun _ he => he) h)
 
 theorem compLabels_conn (p : WMol) : LabelsConn p (compLabels p) := by
-  apply relaxN_conn
+  apply relaxFix_conn
   intro i
   rw [List.getD_eq_getElem?_getD]
   by_cases hi : i < p.natoms
@@ -1296,6 +1303,85 @@ theorem fixpoint_closed : ∀ (bs : List WBond) (l : List Nat), bs.foldl relaxSt
         omega
     · rw [heq] at hfix
       exact ih l hfix e het ha hb
+
+
+/-- pointwise smaller, same length, different somewhere: the sum is strictly smaller -/
+theorem sum_lt_of_le_ne : ∀ (l l' : List Nat), l'.length = l.length → (∀ i (h : i < l.length) (h' : i < l'.length), l'[i] ≤ l[i]) →
+    l' ≠ l → l'.sum < l.sum := by
+  intro l
+  induction l with
+  | nil => intro l' hlen _ hne; cases l' with
+    | nil => exact absurd rfl hne
+    | cons _ _ => simp at hlen
+  | cons a t ih =>
+    intro l' hlen hle hne
+    cases l' with
+    | nil => simp at hlen
+    | cons b t' =>
+      have hlen' : t'.length = t.length := by simpa using hlen
+      have hab : b ≤ a := hle 0 (by simp) (by simp)
+      have hle' : ∀ i (h : i < t.length) (h' : i < t'.length), t'[i] ≤ t[i] := by
+        intro i h h'
+        have := hle (i + 1) (by simp; omega) (by simp; omega)
+        simpa using this
+      have hsum_le : t'.sum ≤ t.sum := by
+        by_cases hte : t' = t
+        · rw [hte]; exact Nat.le_refl _
+        · exact Nat.le_of_lt (ih t' hlen' hle' hte)
+      simp only [List.sum_cons]
+      by_cases hba : b = a
+      · subst hba
+        have hte : t' ≠ t := fun h => hne (by rw [h])
+        have := ih t' hlen' hle' hte
+        omega
+      · omega
+
+theorem labLe_getElem {l l' : List Nat} (h : LabLe l' l) (_hlen : l'.length = l.length) :
+    ∀ i (h1 : i < l.length) (h2 : i < l'.length), l'[i] ≤ l[i] := by
+  intro i h1 h2
+  have := h i
+  rw [List.getD_eq_getElem?_getD, List.getD_eq_getElem?_getD, List.getElem?_eq_getElem h1, List.getElem?_eq_getElem h2] at this
+  simpa using this
+
+theorem relax_le (bonds : List WBond) (l : List Nat) : LabLe (relax bonds l) l := by
+  rw [relax_eq_foldl]; exact foldl_relaxStep_le bonds l
+
+/-- with more fuel than the sum of the labels, `relaxFix` ends at a fixed point of `relax` -/
+theorem relaxFix_fixed (bonds : List WBond) : ∀ (k : Nat) (lab : List Nat), lab.sum < k →
+    relax bonds (relaxFix bonds k lab) = relaxFix bonds k lab := by
+  intro k
+  induction k with
+  | zero => intro lab h; omega
+  | succ k ih =>
+    intro lab h
+    simp only [relaxFix]
+    by_cases heq : (relax bonds lab == lab) = true
+    · simp only [heq, if_true]; simpa using heq
+    · simp only [heq, if_false, Bool.false_eq_true]
+      apply ih
+      have hne : relax bonds lab ≠ lab := by simpa using heq
+      have := sum_lt_of_le_ne lab (relax bonds lab) (length_relax bonds lab)
+        (labLe_getElem (relax_le bonds lab) (length_relax bonds lab)) hne
+      omega
+
+theorem sum_range_le (n : Nat) : (List.range n).sum ≤ n * n := by
+  induction n with
+  | zero => simp
+  | succ n ih =>
+    rw [List.range_succ, List.sum_append]
+    simp only [List.sum_cons, List.sum_nil, Nat.add_zero]
+    have : (n + 1) * (n + 1) = n * n + 2 * n + 1 := by
+      rw [Nat.add_mul, Nat.mul_add, Nat.mul_one, Nat.one_mul]; omega
+    omega
+
+/-- the component labelling is always a fixed point of the relaxation pass -/
+theorem compLabels_fixed (m : WMol) : relax m.bonds (compLabels m) = compLabels m := by
+  apply relaxFix_fixed
+  have := sum_range_le m.natoms
+  omega
+
+theorem componentsClosed_true (m : WMol) : componentsClosed m = true := by
+  simp [componentsClosed, compLabels_fixed]
 
 
 /-- with the labelling at a fixed point, the two ends of every bond are in the same product molecule -/
@@ -1448,5 +1534,9 @@ theorem applyEdit_ok_iff (f : List Nat) (m : WMol) (e : Edit) (hw : m.wf = true)
       obtain ⟨x, hi, hx⟩ := hp
       exact ⟨_, by simp only [applyEdit, mapped_of hi hx, bind, Except.bind]; rfl⟩
 
+
+/-- the two ends of every bond are in the same product molecule -/
+theorem components_closed (p : WMol) (hw : p.wf = true) : ∀ e ∈ p.bonds, ∃ c ∈ components p, e.a ∈ c ∧ e.b ∈ c :=
+  components_closed_of_fixpoint p hw (componentsClosed_true p)
 
 end PGA.Rxn
